@@ -4,6 +4,38 @@ enumeration order."""
 import itertools
 
 
+class Fails(object):
+    """Collects failures by class; the enumeration continues past a failing input so that a
+    second, different defect is still seen.  Result: first failing case per class."""
+
+    def __init__(self):
+        self.by_class = {}
+        self.total = 0
+
+    def add(self, cls, case, observed, expected):
+        self.total += 1
+        if cls not in self.by_class:
+            self.by_class[cls] = dict(case=case, observed=observed, expected=expected, count=0)
+        self.by_class[cls]['count'] += 1
+
+    def result(self, n):
+        if not self.by_class:
+            return dict(failed=False, observed='ok', expected='ok', evaluations=n, classes={})
+        first = sorted(self.by_class)[0]
+        f = self.by_class[first]
+        return dict(failed=True, case=f['case'], observed=f['observed'], expected=f['expected'],
+                    evaluations=n, classes=self.by_class)
+
+
+def replay_class(fn, kw, cls):
+    """Replayer: does failure class `cls` of convcheck.<fn> still occur?"""
+    r = globals()[fn](**kw)
+    c = (r.get('classes') or {}).get(cls)
+    if c is None:
+        return dict(failed=False, observed='class %s does not fail' % cls, expected='-')
+    return dict(failed=True, observed=[c['case'], c['observed']], expected=c['expected'])
+
+
 def bitlen(x):
     return max(1, int(x).bit_length())
 
@@ -44,6 +76,7 @@ def ints(vmax=70, bwmax=8):
         [2 ** k - 1 for k in range(7, 70, 9)] + [-2 ** k for k in range(6, 70, 9)] + \
         [-2 ** k - 1 for k in range(6, 70, 9)]
     n = 0
+    F = Fails()
     for v in vals:
         for bw in [None] + list(range(1, bwmax + 1)) + [bitlen(abs(v)), bitlen(abs(v)) + 1, 70]:
             for signed in (False, True):
@@ -51,25 +84,27 @@ def ints(vmax=70, bwmax=8):
                 exp_ok = representable(v, bw, signed)
                 st, r = _try(lambda: pyrtl.infer_val_and_bitwidth(v, bw, signed))
                 case = dict(v=v, bitwidth=bw, signed=signed)
+                sg = 'neg' if v < 0 else 'nonneg'
                 if exp_ok:
                     ebw = bw if bw is not None else minimal_bw(v, signed)
                     exp = (v % (1 << ebw), ebw)
-                    if st != 'ok' or tuple(r) != exp:
-                        return dict(failed=True, case=case, observed=[st, r if st != 'ok' else list(r)],
-                                    expected=list(exp))
+                    if st != 'ok':
+                        F.add('infer:rejects-representable:%s' % sg, case, [st, r], list(exp))
+                    elif tuple(r) != exp:
+                        F.add('infer:wrong-%s:%s' % ('width' if r[1] != exp[1] else 'value', sg),
+                              case, list(r), list(exp))
                 elif st != 'PyrtlError':
-                    return dict(failed=True, case=case, observed=[st, r if st != 'ok' else list(r)],
-                                expected='PyrtlError (not representable)')
+                    F.add('infer:accepts-unrepresentable:%s' % sg, case,
+                          [st, r if st != 'ok' else list(r)], 'PyrtlError (not representable)')
                 pyrtl.reset_working_block()
                 st2, c = _try(lambda: pyrtl.Const(v, bitwidth=bw, signed=signed))
                 if exp_ok:
                     if st2 != 'ok' or (c.val, c.bitwidth) != exp:
-                        return dict(failed=True, case=dict(case, via='Const'),
-                                    observed=[st2, (c.val, c.bitwidth) if st2 == 'ok' else c],
-                                    expected=list(exp))
+                        F.add('const:differs:%s' % sg, dict(case, via='Const'),
+                              [st2, (c.val, c.bitwidth) if st2 == 'ok' else c], list(exp))
                 elif st2 not in ('PyrtlError',):
-                    return dict(failed=True, case=dict(case, via='Const'), observed=[st2, str(c)[:60]],
-                                expected='PyrtlError')
+                    F.add('const:accepts-unrepresentable:%s' % sg, dict(case, via='Const'),
+                          [st2, str(c)[:60]], 'PyrtlError')
     for b in (True, False):
         for bw in (None, 1, 2):
             for signed in (False, True):
@@ -77,15 +112,16 @@ def ints(vmax=70, bwmax=8):
                 st, r = _try(lambda: pyrtl.infer_val_and_bitwidth(b, bw, signed))
                 ok = (not signed) and bw in (None, 1)
                 if ok and (st != 'ok' or tuple(r) != (int(b), 1)) or (not ok and st != 'PyrtlError'):
-                    return dict(failed=True, case=dict(v=b, bitwidth=bw, signed=signed),
-                                observed=[st, str(r)], expected=[int(b), 1] if ok else 'PyrtlError')
-    return dict(failed=False, observed='ok', expected='ok', evaluations=n)
+                    F.add('bool', dict(v=b, bitwidth=bw, signed=signed), [st, str(r)],
+                          [int(b), 1] if ok else 'PyrtlError')
+    return F.result(n)
 
 
 def verilog_wellformed(wmax=6):
     """well-formed strings [-]W'{b|o|d|h|x}digits : value, width, negative handling, overflow."""
     import pyrtl
     n = 0
+    F = Fails()
     fmt = {'b': lambda x: format(x, 'b'), 'o': lambda x: format(x, 'o'), 'd': str,
            'h': lambda x: format(x, 'x'), 'x': lambda x: format(x, 'X'), '': str}
     for W in range(1, wmax + 1):
@@ -100,22 +136,30 @@ def verilog_wellformed(wmax=6):
                     else:
                         ok = mag < (1 << W)
                         exp = (mag, W)
+                    kind = ('most-negative' if (neg and mag == (1 << (W - 1))) else
+                            ('negative' if neg and mag else 'nonneg'))
                     st, r = _try(lambda: pyrtl.infer_val_and_bitwidth(s))
-                    if ok and (st != 'ok' or tuple(r) != exp) or (not ok and st != 'PyrtlError'):
-                        return dict(failed=True, case=dict(string=s),
-                                    observed=[st, list(r) if st == 'ok' else r],
-                                    expected=list(exp) if ok else 'PyrtlError')
+                    if ok and st != 'ok':
+                        F.add('rejects-representable:%s' % kind, dict(string=s), [st, r], list(exp))
+                        continue
+                    if ok and tuple(r) != exp:
+                        F.add('wrong-value:%s' % kind, dict(string=s), list(r), list(exp))
+                        continue
+                    if not ok and st != 'PyrtlError':
+                        F.add('accepts-unrepresentable:%s' % kind, dict(string=s),
+                              [st, list(r) if st == 'ok' else r], 'PyrtlError')
+                        continue
                     if ok:
                         st2, r2 = _try(lambda: pyrtl.infer_val_and_bitwidth(s, bitwidth=W + 1))
                         if st2 != 'PyrtlError':
-                            return dict(failed=True, case=dict(string=s, bitwidth=W + 1),
-                                        observed=[st2, str(r2)], expected='PyrtlError (width mismatch)')
+                            F.add('width-mismatch-accepted', dict(string=s, bitwidth=W + 1),
+                                  [st2, str(r2)], 'PyrtlError (width mismatch)')
                         pyrtl.reset_working_block()
                         c = pyrtl.Const(s)
                         if (c.val, c.bitwidth) != exp:
-                            return dict(failed=True, case=dict(string=s, via='Const'),
-                                        observed=[c.val, c.bitwidth], expected=list(exp))
-    return dict(failed=False, observed='ok', expected='ok', evaluations=n)
+                            F.add('const-differs', dict(string=s, via='Const'), [c.val, c.bitwidth],
+                                  list(exp))
+    return F.result(n)
 
 
 ALPHABET = "01'dbhs-_ 9x"
@@ -141,10 +185,10 @@ def _verilog_ref(s):
         base = {'b': 2, 'o': 8, 'd': 10, 'h': 16, 'x': 16}[rest[0]]
         rest = rest[1:]
     rest = rest.replace('_', '')
-    try:
-        mag = int(rest, base)
-    except ValueError:
+    digits = '0123456789abcdef'[:base]
+    if rest == '' or any(ch not in digits for ch in rest):
         return None
+    mag = int(rest, base)
     if W < 1:
         return None
     if neg and mag:
@@ -161,6 +205,7 @@ def verilog_all_strings(maxlen=5):
     representable (then equal to the reference reading); rejection is always PyrtlError."""
     import pyrtl
     n = 0
+    F = Fails()
     for L in range(0, maxlen + 1):
         for tup in itertools.product(ALPHABET, repeat=L):
             s = ''.join(tup)
@@ -169,21 +214,24 @@ def verilog_all_strings(maxlen=5):
             st, r = _try(lambda: pyrtl.infer_val_and_bitwidth(s))
             if ref is None:
                 if st == 'ok':
-                    # int() accepts forms such as leading/trailing spaces or '+': the property
-                    # constrains agreement for accepted strings; an accepted string must denote
-                    # a value that fits the stated width
+                    # int() accepts forms such as surrounding spaces: the property constrains
+                    # agreement for accepted strings; an accepted string must denote an in-range
+                    # value of a positive width
                     v, w = r
                     if not (isinstance(w, int) and w >= 1 and 0 <= v < (1 << w)):
-                        return dict(failed=True, case=dict(string=s), observed=[st, list(r)],
-                                    expected='rejection or an in-range value')
+                        F.add('accepts-malformed-out-of-range', dict(string=s), [st, list(r)],
+                              'rejection or an in-range value')
                 elif st != 'PyrtlError':
-                    return dict(failed=True, case=dict(string=s), observed=[st, r],
-                                expected='PyrtlError')
+                    F.add('malformed-not-PyrtlError:%s' % st, dict(string=s), [st, r], 'PyrtlError')
             else:
-                if st != 'ok' or tuple(r) != ref:
-                    return dict(failed=True, case=dict(string=s),
-                                observed=[st, list(r) if st == 'ok' else r], expected=list(ref))
-    return dict(failed=False, observed='ok', expected='ok', evaluations=n)
+                neg = s.startswith('-')
+                kind = 'most-negative' if (neg and ref[0] == (1 << (ref[1] - 1))) else \
+                    ('negative' if neg and ref[0] else 'nonneg')
+                if st != 'ok':
+                    F.add('rejects-wellformed:%s' % kind, dict(string=s), [st, r], list(ref))
+                elif tuple(r) != ref:
+                    F.add('wrong-value:%s' % kind, dict(string=s), list(r), list(ref))
+    return F.result(n)
 
 
 def signed_and_formats(bwmax=9):
@@ -192,7 +240,11 @@ def signed_and_formats(bwmax=9):
     for bw in range(1, bwmax + 1):
         for v in range(-(1 << (bw - 1)), 1 << (bw - 1)):
             n += 1
-            enc = pyrtl.infer_val_and_bitwidth(v, bw, signed=True).value
+            st0, r0 = _try(lambda: pyrtl.infer_val_and_bitwidth(v, bw, signed=True))
+            if st0 != 'ok':
+                return dict(failed=True, case=dict(fn='infer_val_and_bitwidth', v=v, bw=bw, signed=True),
+                            observed=[st0, r0], expected='accepted')
+            enc = r0.value
             back = pyrtl.val_to_signed_integer(enc, bw)
             if back != v or not (0 <= enc < (1 << bw)):
                 return dict(failed=True, case=dict(fn='val_to_signed_integer', v=v, bw=bw),
